@@ -255,8 +255,50 @@ class Prover:
                 if info["mk"] == "BoundsCheck":
                     self.decompose_eq(c, 1 if expected else 0, "bool", out)
                 # overflow / div asserts: not used (build-configuration dependent)
+        self._threaded_facts(node, out)
         self._facts_cache[node] = out
         return out
+
+    def _threaded_facts(self, node, out):
+        """facts that hold on every value-feasible way into a switch arm dominating `node`: when the switch tests a
+        value joined just before it and every incoming edge's value is known, the arm is entered only through the
+        edges that carry that value, so what holds on all of those edges holds in the arm"""
+        cfg = self.an.cfg
+        tm, arms, complete = compute_threads(self.an)
+        if not complete:
+            return
+        busy = self.__dict__.setdefault("_thread_busy", set())
+        for d in cfg.dominators(node):
+            if d < cfg.nblocks:
+                continue
+            e = cfg.edges[d - cfg.nblocks]
+            if e.src not in complete:
+                continue
+            if e.label[0] == "switch":
+                ks = [e.label[1]]
+            elif e.label[0] == "otherwise":
+                seen = set(e.label[1])
+                ks = sorted({k for (S_, k) in arms if S_ == e.src and k not in seen})
+            else:
+                continue
+            ins = [x for k in ks for x in arms.get((e.src, k), [])]
+            if not ins or (e.src, tuple(ks)) in busy:
+                continue
+            busy.add((e.src, tuple(ks)))
+            try:
+                common = None
+                for x in ins:
+                    fs = self.facts_at(x)
+                    keyed = {repr(f): f for f in fs}
+                    common = keyed if common is None else {k2: v for k2, v in common.items() if k2 in keyed}
+                    if not common:
+                        break
+            finally:
+                busy.discard((e.src, tuple(ks)))
+            have = {repr(f) for f in out}
+            for k2, f in (common or {}).items():
+                if k2 not in have:
+                    out.append(f)
 
     def decompose_eq(self, D, v, dty, out):
         if dty == "bool":
@@ -275,6 +317,15 @@ class Prover:
                     out.append(("le", lin_add(self.lin(sl[2]), ln, -1)))
                 else:
                     out.append(("le", lin_add(self.lin(sl[2]), ln, -1)))
+            if sg[0] == "slicegetr" and v == 0:
+                # None: the range does not fit.  For ..hi and lo.. (and 0..hi) that is a single linear fact
+                sl = sg[1]
+                ln = self.lin(self.an.len_of(sl[1]))
+                if sl[0] == "sliceto" or (sl[0] == "slice" and self.lin(sl[2]) == (0, ())):
+                    hi = self.lin(sl[2] if sl[0] == "sliceto" else sl[3])
+                    out.append(("le", lin_add(lin_add(ln, hi, -1), lin_const(1))))      # len + 1 <= hi
+                elif sl[0] == "slicefrom":
+                    out.append(("le", lin_add(lin_add(ln, self.lin(sl[2]), -1), lin_const(1))))
             if sg[0] == "sliceget":
                 li, ll = self.lin(sg[2]), self.lin(self.an.len_of(sg[1]))
                 if v == 1:      # Some: index < len
@@ -294,7 +345,7 @@ class Prover:
             out.append(("notvariant", D[1], v))
             tk = self.an.vtype.get(D[1])
             if tk is not None and tk["k"] == "adt" and tk["path"] in self.TWO_VARIANT and v in (0, 1):
-                out.append(("variant", D[1], 1 - v))
+                self.decompose_eq(D, 1 - v, dty, out)
             return
         out.append(("nec", D, v))
 
@@ -462,3 +513,136 @@ class Prover:
             if f[0] == "variant" and f[1] == V:
                 return f[2]
         return None
+
+
+# ---------------------------------------------------------------------------------------------- jump threading
+def _const_bool(an, v, depth=0):
+    """the boolean a value is known to be: a constant, or a join all of whose inputs (other than itself) are the
+    same constant (a flag that is only ever re-assigned its initial value around a loop)"""
+    if v[0] == "const" and v[2] == "bool":
+        return bool(v[1])
+    if v[0] == "phi" and depth < 4:
+        vals = set()
+        for e in an.cfg.in_edges[v[1]]:
+            st = an.out_state.get(e.src)
+            if st is None:
+                continue
+            x = an.read(st, v[2])
+            if x == v:
+                continue
+            c = _const_bool(an, x, depth + 1)
+            if c is None:
+                return None
+            vals.add(c)
+        if len(vals) == 1:
+            return vals.pop()
+    return None
+
+
+
+def variant_index(an, agg):
+    """index of the variant an aggregate value builds (None if unknown)"""
+    if agg[0] != "agg" or not isinstance(agg[1], str) or not agg[1].startswith("adt:"):
+        return None
+    body = agg[1][4:]
+    path, _, vname = body.rpartition(":")
+    if path in ("core::option::Option",):
+        return {"None": 0, "Some": 1}.get(vname)
+    if path in ("core::result::Result",):
+        return {"Ok": 0, "Err": 1}.get(vname)
+    F = getattr(an, "F", None)
+    adt = F.adts.get(path) if F is not None else None
+    if adt is None or adt.get("kind") != "Enum":
+        return None
+    for i, v in enumerate(adt["variants"]):
+        if v["n"] == vname:
+            return v.get("discr", i) if isinstance(v.get("discr", i), int) else i
+    return None
+
+
+def compute_threads(an):
+    """(tm, arms, complete):  tm: edge node -> (switch block S, forced label value k) - when a switch tests the variant
+    of an enum value (or a boolean) that was joined just before it, and the value flowing in along an incoming edge of
+    the join is known (an aggregate of a known variant, a constant boolean, the residual of `?`), a path entering
+    through that edge can only take one arm.  Joins nested before the join (if / else-if chains building the value) are
+    followed back.  arms: (S, k) -> [edge nodes forced to that arm].  complete: the switches S for which every way into
+    the join is classified, so that arm k of S is entered only through arms[(S, k)]."""
+    r = getattr(an, "_threads", None)
+    if r is not None:
+        return r
+    tm, arms, complete = {}, {}, set()
+    cfg = an.cfg
+
+    def straight(a, b):
+        """from block a every path runs through single-successor, single-entry blocks to block b"""
+        cur = a
+        for _ in range(12):
+            if cur == b:
+                return True
+            outs = cfg.out_edges[cur]
+            if len(outs) != 1:
+                return False
+            cur = outs[0].dst
+            if cur != b and len(cfg.in_edges[cur]) != 1:
+                return False
+            if cur == b:
+                return len(cfg.in_edges[cur]) == 1 or True
+        return False
+
+    def kind(v, boolneg):
+        if boolneg is not None:
+            cb = _const_bool(an, v)
+            return None if cb is None else (int(not cb) if boolneg else int(cb))
+        if v[0] == "agg":
+            return variant_index(an, v)
+        if v[0] == "call" and v[1].endswith("from_residual"):
+            return 1
+        return None
+
+    def classify(J, L, boolneg, depth=0):
+        """[(edge node, k)] for every way into join J, and whether all of them are known"""
+        res, allk = [], True
+        for e in cfg.in_edges[J]:
+            st = an.out_state.get(e.src)
+            if st is None:
+                continue
+            v = an.read(st, L)
+            k = kind(v, boolneg)
+            if k is not None:
+                res.append((e.node, k))
+            elif v[0] == "phi" and v != ("phi", J, L) and depth < 12 and v[1] != J and \
+                    (v[1] == e.src or straight(v[1], e.src)) and len(cfg.in_edges[v[1]]) >= 2:
+                sub, suball = classify(v[1], v[2], boolneg, depth + 1)
+                res += sub
+                allk = allk and suball
+            else:
+                allk = False
+        return res, allk
+    for S_ in range(cfg.nblocks):
+        info = an.term.get(S_)
+        if info is None or info["kind"] != "switch":
+            continue
+        D = info["discr"]
+        boolneg = None
+        tracked = None
+        if D[0] == "discr":
+            tracked = D[1][1] if D[1][0] == "try" else D[1]
+        elif info.get("dty") == "bool":
+            if D[0] == "not":
+                tracked, boolneg = D[1], True
+            else:
+                tracked, boolneg = D, False
+        if tracked is None or tracked[0] != "phi" or tracked[2][0] != "local":
+            continue
+        J = tracked[1]
+        if J not in an.in_state or len(cfg.in_edges[J]) < 2 or not straight(J, S_):
+            continue
+        res, allk = classify(J, tracked[2], boolneg)
+        for n, k in res:
+            if n not in tm:
+                tm[n] = (S_, k)
+                arms.setdefault((S_, k), []).append(n)
+        if allk and res:
+            complete.add(S_)
+    an._threads = (tm, arms, complete)
+    return an._threads
